@@ -237,6 +237,28 @@ fn eval_steps_opts(ctx: &mut Ctx, script: Vec<Step>, case_json: Value, partial_l
     if script.iter().any(|s| matches!(s, Step::AcceptSend(_) | Step::AcceptPartialReset(_) | Step::AcceptSendHold(..))) {
         ctx.count("earlier-aircraft-kept");
     }
+    // independent of any reference run: an aircraft whose complete frames were delivered in step k and that has
+    // been silent for fewer than delete_after seconds when the script ends is in the table, with its squawk
+    {
+        let d_ms = Cfg::new(opts).args.delete_after.saturating_mul(1000);
+        let mut silent_after: Vec<i64> = vec![0; script.len()];
+        let mut acc = 0i64;
+        for (k, st) in script.iter().enumerate().rev() {
+            let hold = if let Step::AcceptSendHold(_, t) = st { *t * 1000 } else { 0 };
+            acc += 5_000 + hold;
+            silent_after[k] = acc;
+        }
+        for (k, st) in script.iter().enumerate() {
+            if matches!(st, Step::AcceptSend(_) | Step::AcceptSendHold(..)) && silent_after[k] < d_ms {
+                ctx.count("learned-earlier-still-listed");
+                let row = got.iter().find(|r| r.key == x_addr(k));
+                if row.is_none_or(|r| r.squawk != Some(4521)) {
+                    ctx.violation("C18/learned-earlier-lost", &key, || format!("script {key}: the aircraft of step {} ({:06X}) was heard {} ms before the end (delete_after {} s) but its row is {}", k + 1, x_addr(k), silent_after[k], d_ms / 1000, if row.is_some() { "incomplete" } else { "missing" }), case);
+                    return;
+                }
+            }
+        }
+    }
     if *got != with && *got != without {
         let keys = |v: &[Snap]| v.iter().map(|r| format!("{:06X}", r.key)).collect::<Vec<_>>().join(",");
         ctx.violation("C18/table", &key, || format!("script {key}: final table [{}] differs from what the file source gives for the same lines [{}]", keys(got), keys(&with)), case);
@@ -342,7 +364,7 @@ fn run(ctx: &mut Ctx) {
         }
     }
     // option sets: every script of length <= 2 under -d 0, -d 1, -U -R, and with the table drawn after every frame
-    for (oi, opts) in [&["-d", "0"][..], &["-d", "1"][..], &["-U", "-R"][..], &["-i", "", "--update=-1", "-c"][..]].iter().enumerate() {
+    for (oi, opts) in [&["-d", "0"][..], &["-d", "1"][..], &["-U", "-R"][..], &["-i", "", "--update=-1", "-c"][..], &["-d", "12", "-u", "6"][..], &["-d", "30", "-u", "20"][..]].iter().enumerate() {
         for len in 0..=2usize {
             for idx in 0..NSYM.pow(len as u32) {
                 job += 1;
@@ -460,9 +482,9 @@ fn replay(ctx: &mut Ctx, case: &Value) {
     let syms: Vec<usize> = case.get("script").and_then(|s| s.as_array()).map(|a| a.iter().filter_map(|x| x.as_u64().map(|v| v as usize)).collect()).unwrap_or_default();
     let pl = case.get("partial_len").and_then(|x| x.as_u64()).unwrap_or(9) as usize;
     if let Some(oi) = case.get("opts").and_then(|x| x.as_u64()) {
-        let all: [&[&str]; 4] = [&["-d", "0"], &["-d", "1"], &["-U", "-R"], &["-i", "", "--update=-1", "-c"]];
+        let all: [&[&str]; 6] = [&["-d", "0"], &["-d", "1"], &["-U", "-R"], &["-i", "", "--update=-1", "-c"], &["-d", "12", "-u", "6"], &["-d", "30", "-u", "20"]];
         let script: Vec<Step> = syms.iter().enumerate().map(|(k, s)| step_of(*s, k, pl)).collect();
-        eval_steps_opts(ctx, script, case.clone(), pl, all[oi as usize % 4]);
+        eval_steps_opts(ctx, script, case.clone(), pl, all[oi as usize % 6]);
         return;
     }
     crate::run::say(&format!("script {:?} partial_len {pl}", syms.iter().enumerate().map(|(k, s)| step_of(*s, k, pl).name()).collect::<Vec<_>>()));
